@@ -83,6 +83,7 @@ class CaseSpec:
             if not answers_agree(ia, ma):
                 disagreements.append((dict(sig, kind='disagreement'),
                                       {'line': line, 'rust_type': rust, 'impl': ia[:2000], 'model': ma[:2000], 'lines': [line], 'meta': _clean(meta)}))
+            ctx['model_ans'] = ma
             why = self.oracle(meta, ia, ctx)
             if why:
                 failures.append((dict(sig, clause=why.split(':')[0]),
@@ -297,6 +298,78 @@ def o_c19(meta, ans, ctx):
     return None
 
 
+def _wfail_one(tok_res, tok_hex, k, total, ff, fault_free=None):
+    if tok_res == 'panic': return 'panic: serialization panicked on a failing writer'
+    if k is not None and k < total:
+        if tok_res.startswith('ok'): return 'success: the writer refused bytes but serialization reported success'
+        if tok_res != 'err': return 'result: expected a write error, got %s' % tok_res
+    elif ff:
+        if tok_res != 'err': return 'flush: flush failed but the result is %s' % tok_res
+    else:
+        if tok_res != 'ok:%d' % total: return 'split: a writer that takes everything got result %s' % tok_res
+    return None
+
+
+def o_c13(meta, ans, ctx):
+    kind = meta.get('kind')
+    if kind == 'wfail':
+        p = ans.split(' ')
+        if len(p) < 4 or p[0] != 'wfail': return 'shape: ' + ans[:60]
+        if meta.get('devfull'):
+            return None if p[1] == 'err' else 'devfull: serializing to /dev/full gave %s' % p[1]
+        why = _wfail_one(p[1], p[2], meta['k'], meta['total'], meta['ff'])
+        if why: return why
+        if 'intact=true' not in ans: return 'intact: the source value changed'
+        base = ctx.setdefault('c13_full', {})
+        key = (meta['ti'], meta['val'])
+        if meta['k'] is None and not meta['ff']:
+            base[key] = p[2]
+        full = base.get(key)
+        if full is not None:
+            # interior padding of zero-copy structures is whatever the memory held (the model marks
+            # those positions with '..'): it is masked on both sides
+            mp = ctx.get('model_ans', '').split(' ')
+            mask = mp[2] if len(mp) > 2 else ''
+            acc = p[2]
+            ok = len(acc) <= len(full)
+            if ok:
+                for j in range(0, len(acc), 2):
+                    if mask[j:j + 2] == '..':
+                        continue
+                    if acc[j:j + 2] != full[j:j + 2]:
+                        ok = False; break
+            if not ok:
+                return 'prefix: the accepted bytes are not a prefix of the fault-free output'
+        if meta['k'] is not None and len(p[2]) // 2 != min(meta['k'], meta['total']):
+            return 'accepted: %d bytes accepted with a budget of %d' % (len(p[2]) // 2, meta['k'])
+        return None
+    if kind == 'wfails':
+        if 'panic' in ans: return 'panic: serialization of a slice panicked on a failing writer'
+        m = re.search(r'frees=(\d+)', ans)
+        if not m: return 'shape: ' + ans[:60]
+        if m.group(1) != '0': return 'freed: the borrowed buffer was handed to the allocator to be freed'
+        if 'intact=true' not in ans: return 'intact: the borrowed data changed'
+        for part in ans.split(' | '):
+            t = part.split(' ')
+            if t[0] == 'wfail' and t[1].startswith('ok') and meta['k'] is not None and len(t[2]) // 2 > meta['k']:
+                return 'success: more bytes than the budget accepted'
+        return None
+    return None
+
+
+def o_c14(meta, ans, ctx):
+    if meta.get('kind') != 'rchunk':
+        return None
+    if ans == 'rchunk panic': return 'panic: deserialize_full panicked on a fragmenting/failing reader'
+    k, n = meta['k'], meta['total']
+    if k is None or k >= n:
+        if ans != 'rchunk ok ' + meta['val']: return 'value: fragmentation changed the result (%s)' % ans[:60]
+    else:
+        if ans.startswith('rchunk ok'): return 'failure-accepted: the reader failed at %d of %d and a value was returned' % (k, n)
+        if ans != 'rchunk err read': return 'failure-error: expected a read error, got %s' % ans[:40]
+    return None
+
+
 def o_c16(meta, ans, ctx):
     k = meta.get('kind')
     if k == 'ser3':
@@ -332,6 +405,8 @@ SPECS = {
     'C10': CaseSpec(o_c10, 'every single-bit flip of the 29 fixed header bytes (all 232 for a quarter of the types in the quick tier, a sample of 48 for the others), the reversed cookie, minor/major/usize boundary values; both modes.'),
     'C11': CaseSpec(o_c11, 'every cut point k in [0,len) of the streams of generated values (streams up to 400 bytes in the quick tier); both modes.'),
     'C12': CaseSpec(o_c12, 'every base residue 0..127 (all for half of the types with aligned blocks in the quick tier, 16 residues for the rest) x generated values; block list taken from the real schema.'),
+    'C13': CaseSpec(o_c13, 'failure at every position k in [0,len] (all k for a fifth of the types in the quick tier, boundary and sampled k for the rest) with random per-call caps and Interrupted patterns, splitting/retrying writers, flush failure, BufWriter over /dev/full; slice references and structures holding them with the allocator protecting the borrowed buffer.'),
+    'C14': CaseSpec(o_c14, '10 fragmentation patterns (1-byte, prime-sized, mixed, pseudo-random, with Interrupted, through BufReader) and failure (error or end of file) at positions k in [0,len) for generated values.'),
     'C16': CaseSpec(o_c16, 'for 13+ element types (zero-copy and deep, built-in and derived): the vector, the slice reference, the SerIter wrapper and a generic structure holding each, on empty and generated sequences; lying iterators for all (announced, actual) pairs <= 6 and larger ones.'),
     'C19': CaseSpec(o_c19, 'every history of length <= 3 (quick; <= 4 thorough) over an alphabet of 12 (14) operations on AlignedCursor<A16>, plus long random histories for A16/A32/A64; the same history on std::io::Cursor<Vec<u8>>; both models tied.'),
     'C15': CaseSpec(o_c15, 'every tag position of every generated value (found through the real schema): byte tags set to 11 boundary values or all 256, enum tag words set to boundary values; both modes.'),
